@@ -167,6 +167,12 @@ def shard_extra(tier: str, seed: int, shard: int, nshards: int) -> dict:
         pool.append(_task(case, f"k{len(pool)}"))
 
     collect()
+    # line-shifted twins: the same statements on other source lines (history bugs often key on text, not on location)
+    for t in list(pool)[: max(2, len(pool) // 2)]:
+        twin = dict(t)
+        twin["key"] = t["key"] + "s"
+        twin["src"] = "shifted__twin(0).\n\n" + t["src"]
+        pool.append(twin)
     failures: list = []
     res: dict = {"evaluations": 0, "c17b_probes": 0, "c17b_noise_calls": 0, "c17b_sequences": 0, "c17c_children": 0, "c17c_tasks_compared": 0, "c17_pool": len(pool)}
     if not pool:
